@@ -183,16 +183,25 @@ def gen_choices(rng: random.Random, custom: bool, hostile_defaults: bool) -> lis
         elif hostile_defaults and custom and r < 0.75:
             value = rng.choice(('a\\b', 'q"q', 'models\\x.mdl'))
         else:
-            value = rng.choice((ident(rng), pathlike(rng), short_text(rng, False, 12, escapes=False)))
+            # no blank padding: the writer leaves anything float() accepts unquoted, and float(' 255 ') is accepted
+            value = rng.choice((ident(rng), pathlike(rng), short_text(rng, False, 12, escapes=False).strip()))
         # choice names are always written with the classic escaping: no newline, quote or backslash
         name = any_text(rng, False, p_empty=0.08, p_long=0.02, newlines=False, escapes=False).replace('\n', ' ')
         out.append((value, name, gen_tags(rng) if rng.random() < 0.3 else frozenset()))
     return out
 
 
+def custom_type(rng: random.Random) -> str:
+    """A value type name the library does not know (kept verbatim as a str type)."""
+    return 'cust_' + ident(rng, 1, 8)
+
+
 def gen_kv(rng: random.Random, name: str, vt: Any, custom: bool, opts: Dict[str, Any]) -> Any:
     from srctools.fgd import KVDef, ValueTypes
     hostile = opts.get('hostile_defaults', True)
+    if rng.random() < 0.03:
+        return KVDef(name, custom_type(rng), any_text(rng, custom), gen_default(rng, ValueTypes.STRING, custom, hostile),
+                     any_text(rng, custom), None, rng.random() < 0.15, rng.random() < 0.15)
     if vt is ValueTypes.SPAWNFLAGS:
         # "Spawnflags never use names": no display name / default / description in the text format
         return KVDef(name, vt, rng.choice((name, '')), '', '', gen_spawnflags(rng, custom) if rng.random() < 0.95 else None,
@@ -332,6 +341,8 @@ def gen_resources(rng: random.Random, text_ok: bool) -> Any:
 
 def gen_io(rng: random.Random, name: str, custom: bool, vt: Any) -> Any:
     from srctools.fgd import IODef
+    if rng.random() < 0.03:
+        vt = custom_type(rng)
     return IODef(name, vt, any_text(rng, custom, p_empty=0.4, p_long=0.03))
 
 
@@ -369,7 +380,7 @@ def gen_text_fgd(rng: random.Random, custom: bool, index: int, opts: Optional[Di
             n_var = rng.choice((1, 1, 1, 2, 3)) if custom else 1
             for vi in range(n_var):
                 tags = gen_tags(rng, nonempty=(n_var > 1 and vi > 0))
-                if tags in variants or (vi > 0 and not _tags_compatible(tags, variants)):
+                if tags in variants:
                     continue
                 vtt = vt if vi == 0 or rng.random() < 0.7 else rng.choice(vts)
                 variants[tags] = gen_kv(rng, name, vtt, custom, opts)
@@ -401,10 +412,6 @@ def gen_text_fgd(rng: random.Random, custom: bool, index: int, opts: Optional[Di
         fgd.entities[cname.casefold()] = ent
         ents.append(ent)
     return fgd
-
-
-def _tags_compatible(tags: frozenset, variants: Dict[frozenset, Any]) -> bool:
-    return True
 
 
 def gen_binary_fgd(rng: random.Random, index: int) -> Any:
@@ -486,6 +493,8 @@ def snap_kv(kv: Any) -> dict:
     vl = kv.val_list
     if vl is not None:
         vl = [[_plain(x) if not isinstance(x, frozenset) else sorted(x) for x in item] for item in vl]
+    elif _vt(kv._type) in ('CHOICES', 'SPAWNFLAGS'):
+        vl = []   # 'if None, an empty list' (choices_list/flags_list); KVDef.copy() turns [] into None
     return {'name': kv.name, 'type': _vt(kv._type), 'disp_name': kv.disp_name, 'default': kv.default,
             'desc': kv.desc, 'val_list': vl, 'readonly': bool(kv.readonly), 'reportable': bool(kv.reportable)}
 
@@ -590,6 +599,8 @@ def model_binary(snap: dict) -> dict:
     out['helpers'] = []
     out['desc'] = ''
     out['bases_resolved'] = True
+    if not snap['resources']:
+        out['resources'] = None   # "if empty, store a tuple that can be shared": explicit-empty is not stored
     kvs = []
     for name, variants in snap['kv']:
         new_vars = []
@@ -608,8 +619,10 @@ def model_binary(snap: dict) -> dict:
     return out
 
 
-def first_diff(a: Any, b: Any, path: str = '') -> Optional[Tuple[str, Any, Any]]:
-    """First structural difference (path, expected, got), or None."""
+def first_diff(a: Any, b: Any, path: str = '', skip: Any = None) -> Optional[Tuple[str, Any, Any]]:
+    """First structural difference (path, expected, got), or None.
+
+    `skip(path, expected, got)` may declare a differing leaf as not carried by the format (returns True)."""
     if type(a) is not type(b) and not (isinstance(a, (int, float)) and isinstance(b, (int, float))
                                        and not isinstance(a, bool) and not isinstance(b, bool)):
         return (path, a, b)
@@ -617,7 +630,7 @@ def first_diff(a: Any, b: Any, path: str = '') -> Optional[Tuple[str, Any, Any]]
         for k in a:
             if k not in b:
                 return (f'{path}.{k}', a[k], '<missing>')
-            d = first_diff(a[k], b[k], f'{path}.{k}')
+            d = first_diff(a[k], b[k], f'{path}.{k}', skip)
             if d:
                 return d
         for k in b:
@@ -629,13 +642,32 @@ def first_diff(a: Any, b: Any, path: str = '') -> Optional[Tuple[str, Any, Any]]
             label = f'{path}[{i}]'
             if isinstance(x, list) and x and isinstance(x[0], str) and len(x) == 2 and isinstance(x[1], list):
                 label = f'{path}[{x[0]}]'
-            d = first_diff(x, y, label)
+            d = first_diff(x, y, label, skip)
             if d:
                 return d
         if len(a) != len(b):
             return (f'{path}.len', len(a), len(b))
         return None
-    return None if a == b else (path, a, b)
+    if a == b:
+        return None
+    if skip is not None and skip(path, a, b):
+        return None
+    return (path, a, b)
+
+
+CLASSIC_UNCARRIED = '"\\\r'
+
+
+def classic_skip(counter: Optional[Dict[str, int]] = None) -> Any:
+    """custom_syntax=False: the classic escaping only knows \\n and turns a quote into two apostrophes, so a string
+    holding a quote, a backslash or a CR is documented not to survive (only such leaves are excused)."""
+    def skip(path: str, want: Any, got: Any) -> bool:
+        if isinstance(want, str) and isinstance(got, str) and any(c in want for c in CLASSIC_UNCARRIED):
+            if counter is not None:
+                counter['n'] = counter.get('n', 0) + 1
+            return True
+        return False
+    return skip
 
 
 def is_nontrivial(snap: dict) -> bool:
